@@ -4,7 +4,7 @@ tier=${1:-quick}; shift
 seeds=${@:-0}
 cd "$(dirname "$0")/.."
 for sd in $seeds; do
-  for p in C01 C02 C03 C04 C05 C06 C07 C08 C09 C10 C11 C12 C13 C14 C15 C16 C17 C18 C19 C20; do
+  for p in ${PROPS:-C01 C02 C03 C04 C05 C06 C07 C08 C09 C10 C11 C12 C13 C14 C15 C16 C17 C18 C19 C20}; do
     t0=$(date +%s)
     out=$(VERIF_SEED=$sd bin/check $p $tier 2>&1 | grep -v conda | grep -E "^OK|^VIOLATION|^MACHINERY|^KNOWN" | head -3 | cut -c1-260)
     echo "seed=$sd $p rc=$? $(( $(date +%s) - t0 ))s :: $out"
